@@ -455,10 +455,18 @@ where
     fn sample(&mut self) -> usize {
         let r: T = self.rng.random();
         let mut cum: T = T::zero();
-        let mut k = self.probs.len() - 1;
+        // Fallback (rounding can leave the cumulative sum below `r`): the last category
+        // that has positive probability, never a zero-probability one.
+        let mut k = self
+            .probs
+            .iter()
+            .rposition(|&p| p > T::zero())
+            .unwrap_or(self.probs.len() - 1);
         for (i, &p) in self.probs.iter().enumerate() {
             cum += p;
-            if r <= cum {
+            // Strict comparison: category i owns [cum_{i-1}, cum_i), so a zero-probability
+            // category (empty interval) is never selected, not even for r == 0.
+            if r < cum {
                 k = i;
                 break;
             }
